@@ -60,6 +60,8 @@ def run(ctx):
         ex = SC.exact_quantities(s, xpre)
         if ex is None or ex["det"] <= 0 or ex["V"] <= 0:
             ctx.count("degenerate_exact_skipped"); continue
+        if SC.tol_cond(nl, ex["cond"], ex["kappa"]) > Fraction(1, 1000):
+            ctx.count("cancellation_dominates(cond*kappa)_skipped"); continue
         sy = kin.symanzik(c["edges"], xpre, r["ext_mom"], r["masses"], D)
         gen_mom = {vtx: [Fraction(1000003 * (i + 1) + 17 * i * i)] for i, vtx in enumerate(sorted(r["ext_mom"]))}
         if gen_mom:
